@@ -10,12 +10,12 @@ def apply(d, f, old, new, nth=None):
     if nth is not None:
         parts = s.split(old)
         if len(parts) <= nth:
-            raise SystemExit("variant anchor found %d times in %s, need occurrence %d" % (len(parts) - 1, f, nth))
+            raise ValueError("variant anchor found %d times in %s, need occurrence %d" % (len(parts) - 1, f, nth))
         s = old.join(parts[:nth]) + new + old.join(parts[nth:])
         open(p, "w").write(s)
         return
     if s.count(old) != 1:
-        raise SystemExit("variant anchor found %d times in %s: %r" % (s.count(old), f, old[:60]))
+        raise ValueError("variant anchor found %d times in %s: %r" % (s.count(old), f, old[:60]))
     open(p, "w").write(s.replace(old, new))
 
 def main(a):
@@ -24,6 +24,7 @@ def main(a):
     for v in sel:
         t0 = time.time()
         d = mutate.scratch_copy()
+        res = None
         try:
             if "revert" in v:
                 import subprocess
@@ -35,6 +36,10 @@ def main(a):
                 apply(d, f, o, n)
             pids = [v["pid"]] + v.get("also", [])
             res = mutate.run_checks(d, pids)
+        except (ValueError, Exception) as e:
+            print("%-34s %-5s FAIL (variant could not be applied: %s)" % (v["name"], v["kind"], e), flush=True)
+            rep.append((v["name"], v["kind"], False, -1, [], 0))
+            continue
         finally:
             shutil.rmtree(d, ignore_errors=True)
         rc, out = res[v["pid"]]
